@@ -15,7 +15,7 @@
     [ref_not_inner]: the output interval does NOT start after the beginning of a VoD audio segment
                      and end before its end (finding audio-inner-interval-500 excluded). *)
 From Verif Require Import GoSem Audio AudioProofs.
-From Verif Require Timeline TimelineProofs.
+From Verif Require Timeline TimelineProofs AudioRef AudioRefProofs.
 
 (** C03_boundary. calcAudioTimeFromRef computes, whenever its products fit into 64 bits, the least
     multiple of the frame duration that is at or after the reference time: a multiple of [F], at or
@@ -148,6 +148,45 @@ Theorem C03_timeline_recipe : forall r F a nr s e D,
              /\ r_nr rc = nr /\ r_start rc = fb r F a s /\ r_end rc = fb r F a e.
 Proof. exact recipe_start_end. Qed.
 Print Assumptions C03_timeline_recipe.
+
+(** C03_request. The whole handler path for $Number$ addressing (findRefSegMeta by number =
+    findSegMetaFromNr on the reference, recipe, createAudioSeg): the request for number [startNr + n]
+    is too early / gone / available exactly like reference segment [n] (C01, C04), and when available
+    the answer is the segment of C03_frames with sequence number [startNr + n]. [fx] is the version of
+    the code (see C03_frames / C03_frames_fixed). *)
+Theorem C03_request : forall vr loopMS, Timeline.wf vr loopMS ->
+  forall c F a, 0 < F -> 0 < a ->
+  forall fx tab n now,
+  0 <= n -> 0 <= Timeline.startNr c -> Timeline.startNr c + n < two32 ->
+  ref_pre (Timeline.ts vr) F a vr tab n ->
+  fx = true \/ ref_not_inner (Timeline.ts vr) F a vr tab n ->
+  F < two32 -> Timeline.ts vr < two64 -> Timeline.E vr n < two64 -> Timeline.repDuration vr < two64 ->
+  Timeline.sdur (Timeline.segAt vr (n mod Timeline.nsegs vr)) < two32 ->
+  AudioRef.audio_request fx vr loopMS c F a tab Timeline.ByNumber (Timeline.startNr c + n) now =
+  Timeline.timed (Timeline.checkTime (Timeline.E vr n + Timeline.startS c * Timeline.ts vr) (Timeline.ts vr) now
+                                     (Timeline.tsbdS c) (Timeline.ato c))
+        (Timeline.TOk {| o_tfdt := fb (Timeline.ts vr) F a (Timeline.S vr n); o_seq := Timeline.startNr c + n;
+                o_frames :=
+                  map (fun g => Z.min (g - fidx (Timeline.ts vr) F a (loop_start vr n)) (tot tab - 1))
+                      (rangeZ (fidx (Timeline.ts vr) F a (Timeline.S vr n)) (fidx (Timeline.ts vr) F a (Timeline.E vr n))) |}).
+Proof. exact AudioRefProofs.audio_request_number. Qed.
+Print Assumptions C03_request.
+
+(** C03_time_eq_number. SegmentTimeline $Time$ addressing: the request for the time the audio timeline
+    lists for segment [n] (C03_timeline: the frame boundary of the reference start) goes through
+    findRefSegMetaFromTime, finds reference segment [n] and is answered exactly like the request for
+    number [startNr + n] -- provided the reference segment is at least one audio frame long. *)
+Theorem C03_time_eq_number : forall vr loopMS, Timeline.wf vr loopMS ->
+  forall c F a, 0 < F -> 0 < a ->
+  forall fx tab n now,
+  0 <= n -> 0 <= Timeline.startNr c -> Timeline.startNr c + n < two32 ->
+  F * Timeline.ts vr <= (Timeline.E vr n - Timeline.S vr n) * a ->
+  Timeline.ts vr < two64 -> fb (Timeline.ts vr) F a (Timeline.S vr n) * Timeline.ts vr < two64 ->
+  Timeline.E vr n < two63 -> Timeline.repDuration vr < two64 ->
+  AudioRef.audio_request fx vr loopMS c F a tab Timeline.ByTime (fb (Timeline.ts vr) F a (Timeline.S vr n)) now =
+  AudioRef.audio_request fx vr loopMS c F a tab Timeline.ByNumber (Timeline.startNr c + n) now.
+Proof. exact AudioRefProofs.audio_request_time_eq_number. Qed.
+Print Assumptions C03_time_eq_number.
 
 (** C03_short_audio_refuted: when the audio table does not reach the start of the reference segment
     ([rp_reach] of [ref_pre] fails) createAudioSeg returns an error or indexes out of range. *)
